@@ -393,7 +393,12 @@ func main() {
 	fmt.Fprintf(&b, "/-- decoder function per key, reader path -/\ndef decoderFuncs : List String := %s\n\n", leanStrList(dv))
 	fmt.Fprintf(&b, "/-- decoder function per key, slice-reader path -/\ndef decoderSRFuncs : List String := %s\n\n", leanStrList(sv))
 	fmt.Fprintf(&b, "/-- keys of `sgeDecoders` -/\ndef sgeDecoderKeys : List String := %s\n\n", leanStrList(gk))
-	for _, c := range []struct{ dir, name string }{{"mp4", "minClearSize"}, {"mp4", "naluHdrLen"}, {"mp4", "maxNormalPayloadSize"}, {"mp4", "boxHeaderSize"}, {"mp4", "largeSizeLen"}, {"bits", "startCodeEmulationPreventionByte"}} {
+	for _, c := range []struct{ dir, name string }{{"mp4", "minClearSize"}, {"mp4", "naluHdrLen"}, {"mp4", "maxNormalPayloadSize"}, {"mp4", "boxHeaderSize"}, {"mp4", "largeSizeLen"}, {"bits", "startCodeEmulationPreventionByte"},
+		{"mp4", "TrunDataOffsetPresentFlag"}, {"mp4", "TrunFirstSampleFlagsPresentFlag"}, {"mp4", "TrunSampleDurationPresentFlag"},
+		{"mp4", "TrunSampleSizePresentFlag"}, {"mp4", "TrunSampleFlagsPresentFlag"}, {"mp4", "TrunSampleCompositionTimeOffsetPresentFlag"},
+		{"mp4", "baseDataOffsetPresent"}, {"mp4", "sampleDescriptionIndexPresent"}, {"mp4", "defaultSampleDurationPresent"},
+		{"mp4", "defaultSampleSizePresent"}, {"mp4", "defaultSampleFlagsPresent"}, {"mp4", "durationIsEmpty"}, {"mp4", "defaultBaseIsMoof"},
+		{"mp4", "SyncSampleFlags"}, {"mp4", "NonSyncSampleFlags"}, {"mp4", "nrAudioSampleBytesBeforeChildren"}} {
 		v, ok := constInt(parseDir(*repo, c.dir), c.name)
 		if !ok {
 			v = -1
